@@ -47,4 +47,13 @@ Theorem C14_failure_noop : forall c f r flt out f' p,
   Spec.C14.is_file (lstat f p) = true \/ Spec.C14.is_file (lstat f' p) = true -> lstat f' p = lstat f p.
 Proof. exact Fs_proofs.failure_noop. Qed.
 Print Assumptions C14_failure_noop.
+
+(* tie to the code: see C02_code_tie - the upload handler reads the request path through the same function *)
+From NV Require Gen.PyGen Equiv.Equiv.
+Theorem C14_code_tie : forall (unq : str -> str) path,
+  PyGen.gen_canonical_path_segments unq path false =
+  match canon_strict (comps (unq path)) [] with Some s => Ok s | None => Err (lit "ValueError") [] end.
+Proof. exact Equiv.canonical_segments_strict_tie. Qed.
+Print Assumptions C14_code_tie.
+
 Close Scope N_scope.
